@@ -1020,11 +1020,10 @@ class Interp:
                 if k in locals_:
                     raise Unsupported("duplicate argument")
                 locals_[k] = kwargs.pop(k)
-        if kwargs:
-            if a.kwarg is not None:
-                locals_[a.kwarg.arg] = SDict(kwargs)
-            else:
-                raise Unsupported(f"unexpected keyword arguments {list(kwargs)} for {fn.name}")
+        if a.kwarg is not None:
+            locals_[a.kwarg.arg] = SDict(kwargs)
+        elif kwargs:
+            raise Unsupported(f"unexpected keyword arguments {list(kwargs)} for {fn.name}")
         # defaults
         fr0 = Frame(module, {}, "")
         nd = len(a.defaults)
@@ -1822,6 +1821,8 @@ class Interp:
                     continue
                 if isinstance(d, SOpaque):
                     raise Unsupported("second ** in a dict display over a dict of unknown content")
+                if isinstance(src, dict):
+                    src = SDict(dict(src))
                 if not isinstance(src, SDict):
                     raise Unsupported("** of non-dict")
                 d.items.update(src.items)
@@ -2405,7 +2406,9 @@ class Interp:
         for kw in node.keywords:
             if kw.arg is None:
                 d = self.eval(kw.value, fr)
-                if not isinstance(d, SDict):
+                if isinstance(d, dict) and all(isinstance(k, str) for k in d):
+                    d = SDict(dict(d))             # a module-level constant table
+                if not isinstance(d, SDict) or d.rest is not None:
                     raise Unsupported("** of non-dict")
                 kwargs.update(d.items)
             else:
